@@ -500,6 +500,61 @@ def run_converter(pages, conv, sink, codec, strip, imgw, text_codec="utf-8"):
     return fp.getvalue()
 
 
+FILE_SINKS = {"wb": "wb", "w+b": "w+b", "ab": "ab", "a+b": "a+b", "xb": "xb", "x+b": "x+b", "w": "w", "w+": "w+", "a": "a"}
+REPORTED_MODE = {"wb": "wb", "w+b": "rb+", "ab": "ab", "a+b": "ab+", "xb": "xb", "x+b": "xb+", "TemporaryFile": "rb+", "w": "w", "w+": "w+", "a": "a"}
+BYTE_SINKS = {"BytesIO", "wb", "w+b", "ab", "a+b", "xb", "x+b", "TemporaryFile"}
+
+
+def run_converter_on(pages, conv, kind, codec, strip, imgw, tmpdir):
+    """the real converter writing to a sink of the given kind (ConvOps.tla: SinkKindsAll) -> (takes bytes?, content read back).
+    Real files are opened in `tmpdir` with the given mode (text files with encoding utf-8); their reported mode must be the
+    one the specification assumes (realiser self-check)."""
+    import os
+    import tempfile
+    path = os.path.join(tmpdir, "sink_%s" % abs(hash((kind, conv, strip, imgw, id(pages)))))
+    if kind == "StringIO":
+        fp = io.StringIO()
+    elif kind == "BytesIO":
+        fp = io.BytesIO()
+    elif kind == "TemporaryFile":
+        fp = tempfile.TemporaryFile(dir=tmpdir)
+    elif "b" in FILE_SINKS[kind]:
+        fp = open(path, FILE_SINKS[kind])
+    else:
+        fp = open(path, FILE_SINKS[kind], encoding="utf-8", newline="")
+    if kind not in ("StringIO", "BytesIO") and fp.mode != REPORTED_MODE[kind]:
+        raise MachineryError("a file opened as %s reports mode %r, the specification assumes %r" % (kind, fp.mode, REPORTED_MODE[kind]))
+    binary = kind in BYTE_SINKS
+    rm = PDFResourceManager()
+    try:
+        if conv == "text":
+            dev = TextConverter(rm, fp, codec=codec if binary else "utf-8", laparams=None)
+        else:
+            dev = XMLConverter(rm, fp, codec=codec if binary else None, laparams=None, imagewriter=StubImageWriter() if imgw else None,
+                               stripcontrol=strip)
+        for p in pages:
+            dev.receive_layout(p)
+        dev.close()
+        if kind in ("StringIO", "BytesIO"):
+            return binary, fp.getvalue()
+        fp.flush()
+        if kind == "TemporaryFile":
+            fp.seek(0)
+            return binary, fp.read()
+        fp.close()
+        with open(path, "rb") as f:
+            raw = f.read()
+        return binary, raw if binary else raw.decode("utf-8")
+    finally:
+        if kind not in ("StringIO", "BytesIO"):
+            try:
+                fp.close()
+            except Exception:  # noqa: BLE001
+                pass
+            if os.path.exists(path):
+                os.remove(path)
+
+
 # ------------------------------------------------------------------------------------------------ projection real tree -> model tree
 def classify(ch, exact=False):
     """a real character as a model character; exact: C0 controls keep their identity (Python reference only - the TLA+
